@@ -51,7 +51,7 @@ class Body:
 
     def where(self, b):
         t = self.term(b)
-        return f"{self.file}:{t.get('line', self.line)}"
+        return f"{self.blocks[b].get('file') or self.file}:{t.get('line', self.line)}"
 
     # ---- CFG
     def succs(self, b, unwind=False):
@@ -337,6 +337,10 @@ class Program:
                 self.macros[d["crate"] + "::" + k] = v
             for k, v in it["fns"].items():
                 self.fns[pfx + k] = v
+        # normalisation: helpers that are new relative to the pinned tree are inlined into their callers (hv/inline.py)
+        self.extra_closures = {}
+        from . import inline as _inline
+        _inline.apply(self, Body)
 
     def body(self, path):
         return self.bodies.get(path)
@@ -372,7 +376,8 @@ class Program:
         return [b for p, b in self.bodies.items() if r.search(p)]
 
     def closures_of(self, path):
-        return [b for p, b in self.bodies.items() if b.parent == path]
+        extra = set(self.extra_closures.get(path, ()))
+        return [b for p, b in self.bodies.items() if b.parent == path or p in extra]
 
     def all_closures_of(self, path):
         out = []
@@ -386,7 +391,10 @@ class Program:
 
     def callers_of(self, rx):
         out = []
+        new = set(getattr(self, "new_functions", ()))
         for b in self.bodies.values():
+            if b.path in new:
+                continue        # inlined into its callers: the call is seen there
             for blk, t in b.calls_to(rx):
                 out.append((b, blk, t))
         return out
